@@ -33,6 +33,25 @@ func newMetered(max uint64) *meteredLRU {
 	return m
 }
 
+// The specification's keys are small numbers; the real cache sees them through one of several injective maps:
+// themselves, keys that agree in their low 10 / 16 / 32 bits, scattered 64-bit values (what the hashes of real
+// expressions look like).
+var lruKeyMode int
+
+func ck(k int) uint64 {
+	switch lruKeyMode % 5 {
+	case 1:
+		return uint64(k)*1024 + 5
+	case 2:
+		return uint64(k)<<16 | 0xbeef
+	case 3:
+		return uint64(k)<<32 | 7
+	case 4:
+		return uint64(k) * 0x9e3779b97f4a7c15
+	}
+	return uint64(k)
+}
+
 // bitmapOfSize crafts a bitmap whose GetSizeInBytes is as close as possible to want.
 func bitmapOfSize(want int) *roaring.Bitmap {
 	b := roaring.New()
@@ -101,7 +120,7 @@ func applyOps(max uint64, ops []lruOp, n int, classes []*roaring.Bitmap) (*meter
 		if op.Op == "put" {
 			b := classes[op.Cl-1].Clone()
 			ids[b] = i + 1
-			if p := vx.Safely(func() { m.c.Put(uint64(op.K), b) }); p != nil {
+			if p := vx.Safely(func() { m.c.Put(ck(op.K), b) }); p != nil {
 				o.Bm = -99 // a panic of the cache: matches no expected observation
 				obs[i] = o
 				return m, ids, obs[:i+1]
@@ -110,7 +129,7 @@ func applyOps(max uint64, ops []lruOp, n int, classes []*roaring.Bitmap) (*meter
 		} else {
 			var b *roaring.Bitmap
 			var ok bool
-			if p := vx.Safely(func() { b, ok = m.c.Get(uint64(op.K)) }); p != nil {
+			if p := vx.Safely(func() { b, ok = m.c.Get(ck(op.K)) }); p != nil {
 				o.Bm = -99
 				obs[i] = o
 				return m, ids, obs[:i+1]
@@ -132,7 +151,7 @@ func applyOps(max uint64, ops []lruOp, n int, classes []*roaring.Bitmap) (*meter
 func sweep(m *meteredLRU, keys []int) []int {
 	res := []int{}
 	for _, k := range keys {
-		if _, ok := m.c.Get(uint64(k)); ok {
+		if _, ok := m.c.Get(ck(k)); ok {
 			res = append(res, k)
 		}
 	}
@@ -169,6 +188,7 @@ func replayLRU(args []string) error {
 			return err
 		}
 		rep.Behaviours++
+		lruKeyMode = rep.Behaviours
 		if b.Tag == "amb" {
 			nAmb++
 			if tw != nil {
@@ -237,7 +257,7 @@ func emitLRUTrace(tw *vx.NDWriter, max uint64, ops []lruOp, classes []*roaring.B
 			tw.Emit(map[string]any{"ev": "Metrics", "get": m.get.n, "put": m.put.n, "hit": m.hit.n, "miss": m.miss.n})
 		}
 		for _, k := range keys {
-			b, ok := m.c.Get(uint64(k))
+			b, ok := m.c.Get(ck(k))
 			id := 0
 			if ok {
 				id = ids[b]
@@ -261,6 +281,7 @@ func recordLRU(args []string) error {
 	}
 	rng := rand.New(rand.NewSource(*seed))
 	for r := 0; r < *runs; r++ {
+		lruKeyMode = r
 		nk := 3 + rng.Intn(14)
 		max := []uint64{0, 40, 300, 1000, 5000, 20000, 1 << 20}[rng.Intn(7)]
 		if rng.Intn(4) == 0 {
@@ -283,10 +304,10 @@ func recordLRU(args []string) error {
 			if rng.Intn(2) == 0 {
 				b := bitmapOfSize(pal[rng.Intn(len(pal))])
 				ids[b] = i
-				m.c.Put(uint64(k), b)
+				m.c.Put(ck(k), b)
 				tw.Emit(map[string]any{"ev": "Put", "k": k, "size": b.GetSizeInBytes(), "bm": i})
 			} else {
-				b, ok := m.c.Get(uint64(k))
+				b, ok := m.c.Get(ck(k))
 				id := 0
 				if ok {
 					var known bool
@@ -304,7 +325,7 @@ func recordLRU(args []string) error {
 		}
 		sort.Ints(ks)
 		for _, k := range ks {
-			b, ok := m.c.Get(uint64(k))
+			b, ok := m.c.Get(ck(k))
 			id := 0
 			if ok {
 				id = ids[b]
